@@ -241,6 +241,7 @@ func identifierAlphabet() ([]rune, string) {
 func c12feed(c *core.Check) {
 	c12patchTarget(c)
 	c12skipPredicate(c)
+	c12freshName(c)
 	fd := c.Prog.FuncDecl("generator", "FileManager.Feed")
 	key := "generator.(FileManager).Feed"
 	if fd == nil {
